@@ -154,14 +154,10 @@ func cdSpecEscape(v string) string {
 	return sb.String()
 }
 
-// cdWireValueOK: a stored value that Set can have produced (printable ASCII, no ';').
+// cdWireValueOK: a stored (wire-form) value as in Spec/CodecSpec.v wf_wire_value: no ';', no
+// SPACE, valid UTF-8 without CR / LF / NUL (what Set stores is the printable-ASCII subset).
 func cdWireValueOK(v string) bool {
-	for i := 0; i < len(v); i++ {
-		if v[i] < '!' || v[i] > '~' || v[i] == ';' {
-			return false
-		}
-	}
-	return true
+	return !strings.ContainsAny(v, "; ") && cdCleanField(v)
 }
 
 // cdIsEscapedImage: v = cdSpecEscape(x) for some x, i.e. every backslash starts one of the
@@ -194,7 +190,7 @@ func cdTagSectionLen(t girc.Tags) int { // '@' + k[=v] joined by ';'
 
 func cdWfTags(t girc.Tags) bool {
 	for k, v := range t {
-		if !cdSpecValidKey(k) || !cdWireValueOK(v) || !cdIsEscapedImage(v) {
+		if !cdSpecValidKey(k) || !cdWireValueOK(v) {
 			return false
 		}
 	}
@@ -269,21 +265,21 @@ func cdRoundTripDiff(e, p *girc.Event) string {
 
 var (
 	cdCmdPool       = []string{"PRIVMSG", "NOTICE", "001", "005", "privmsg", "CAP", "Ping", "JOIN", "MODE", "TAGMSG", "xy", "353"}
-	cdCmdOdd        = []string{"", "A", ":x", "@x", "PRIV MSG", "caf\xc3\xa9", "\xc4\xb1d", "a\xc5\xbf", "\xffQ", "pr\tiv", "q\x00", "12", "P\r\nQ"}
-	cdWordPool      = []string{"#chan", "nick", "a", "CHANLIMIT=#:120", "x:y", "b\tc", "d\xc2\xa0e", "f\xe2\x80\x83g", "h\vi", "+o", "*", "caf\xc3\xa9", "::", "a:", "\x01ACTION", "k=v", "@at", "!bang", "$", "0"}
-	cdWordOdd       = []string{"", ":lead", "sp ace", "nul\x00", "cr\rlf\n", "\xff", "\xe2\x82", " "}
-	cdLastPool      = []string{"", "hello world", ":colon", "plain", "tab\there", "nb\xc2\xa0sp", "em\xe2\x80\x83sp", "v\vt", " lead", "trail ", "  ", ": x", "a :b :c", ":", "::", "x:y", "\x01ACTION waves\x01", "caf\xc3\xa9 \xe2\x82\xac"}
-	cdLastOdd       = []string{"cr\rlf\n", "\r", "nul\x00x", "\xff\xfe", "a\xe2\x82", "\nQUIT :x"}
-	cdNamePool      = []string{"nick", "irc.example.org", "n[i]ck", "N", "caf\xc3\xa9", "a-b", "*"}
-	cdIdentPool     = []string{"", "user", "~u", "u!x", "i.d"}
-	cdHostPool      = []string{"", "host.example", "1.2.3.4", "::1", "h/cloak", "a:b"}
-	cdSrcOdd        = []string{" x", "a@b", "a!b", "!", "@", "\xff", "x\r", "a b"}
+	cdCmdOdd        = []string{"\xef\xbf\xbdCMD", "P\xef\xbf\xbd", "\xef\xbf", "", "A", ":x", "@x", "PRIV MSG", "caf\xc3\xa9", "\xc4\xb1d", "a\xc5\xbf", "\xffQ", "pr\tiv", "q\x00", "12", "P\r\nQ"}
+	cdWordPool      = []string{"\xef\xbf\xbd", "a\xef\xbf\xbdb", "\xef\xbf\xbd\xef\xbf\xbd", "\xef\xbf\xbe", "\xef\xbf\xbf", "x\xef\xbf\xbc", "#chan", "nick", "a", "CHANLIMIT=#:120", "x:y", "b\tc", "d\xc2\xa0e", "f\xe2\x80\x83g", "h\vi", "+o", "*", "caf\xc3\xa9", "::", "a:", "\x01ACTION", "k=v", "@at", "!bang", "$", "0"}
+	cdWordOdd       = []string{"\xef\xbf\xbd\xff", "\xff\xef\xbf\xbd", "\xef\xbf", "\xef\xbf\xbd\r", "\n\xef\xbf\xbd", "\xef\xef\xbf\xbd\xbf", "", ":lead", "sp ace", "nul\x00", "cr\rlf\n", "\xff", "\xe2\x82", " "}
+	cdLastPool      = []string{"\xef\xbf\xbd", "a\xef\xbf\xbdb", "\xef\xbf\xbd\xef\xbf\xbd", "\xef\xbf\xbe", "\xef\xbf\xbf", "x\xef\xbf\xbc", "caf\xef\xbf\xbd au lait", ":\xef\xbf\xbd", "\xef\xbf\xbd ", "", "hello world", ":colon", "plain", "tab\there", "nb\xc2\xa0sp", "em\xe2\x80\x83sp", "v\vt", " lead", "trail ", "  ", ": x", "a :b :c", ":", "::", "x:y", "\x01ACTION waves\x01", "caf\xc3\xa9 \xe2\x82\xac"}
+	cdLastOdd       = []string{"\xef\xbf\xbd\xff", "\xfe\xef\xbf\xbd x", "a\xef\xbf", "\xef\xbf\xbd\r\n", "\r\xef\xbf\xbd\n\xef\xbf\xbd", "cr\rlf\n", "\r", "nul\x00x", "\xff\xfe", "a\xe2\x82", "\nQUIT :x"}
+	cdNamePool      = []string{"n\xef\xbf\xbd", "\xef\xbf\xbd", "nick", "irc.example.org", "n[i]ck", "N", "caf\xc3\xa9", "a-b", "*"}
+	cdIdentPool     = []string{"u\xef\xbf\xbd", "\xef\xbf\xbd", "", "user", "~u", "u!x", "i.d"}
+	cdHostPool      = []string{"h\xef\xbf\xbd.example", "\xef\xbf\xbd", "\xef\xbf\xbe", "", "host.example", "1.2.3.4", "::1", "h/cloak", "a:b"}
+	cdSrcOdd        = []string{"\xef\xbf\xbd\xff", "\xef\xbf", "\xef\xbf\xbd\r", " x", "a@b", "a!b", "!", "@", "\xff", "x\r", "a b"}
 	cdKeyPool       = []string{"a", "time", "account", "msgid", "example.com/ddd", "a.b/c", "+client", "+example.com/foo", "draft/label", "k-1", "k_2", "z", "B"}
 	cdKeyOdd        = []string{"", "+", "a b", "a=b", "k;", "caf\xc3\xa9", "@k", "a\x00", "++", "a:b", "a[b", "a{b", "a,b", "a`b", "a@b", "a+b", "Z", "z9-./_"}
-	cdRawValPool    = []string{"", "v", "bbb", `a\sb`, `\:\s\\\r\n`, `\\\\`, `\\s`, `\\n`, `\\r`, `\\:`, `a\\sb\\:c\\\\n`, `\\\s`, `x\\`, "2019-02-21T20:12:03.000Z", "2011-10-19T16:40:51.620Z", "=eq=", "x/y", "~"}
-	cdRawValOdd     = []string{`a\`, `\x`, `\`, `a\bc`, "sp ace", "se;mi", "caf\xc3\xa9", "\x01", `\\\`, "\xff", "a\rb"}
+	cdRawValPool    = []string{"\xef\xbf\xbd", "a\xef\xbf\xbdb", "\xef\xbf\xbf", "caf\xc3\xa9", "", "v", "bbb", `a\sb`, `\:\s\\\r\n`, `\\\\`, `\\s`, `\\n`, `\\r`, `\\:`, `a\\sb\\:c\\\\n`, `\\\s`, `x\\`, "2019-02-21T20:12:03.000Z", "2011-10-19T16:40:51.620Z", "=eq=", "x/y", "~"}
+	cdRawValOdd     = []string{"\xef\xbf\xbd\xff", "\xef\xbf", "\xef\xbf\xbd\n", `a\`, `\x`, `\`, `a\bc`, "sp ace", "se;mi", "caf\xc3\xa9", "\x01", `\\\`, "\xff", "a\rb"}
 	cdBackslashVals = []string{`\`, `\\`, `\\\`, `\s`, `\n`, `\r`, `\:`, `\\s`, `\\n`, `C:\new\share`, `C:\report\sales`, `a\:b`, `x\`, `\x`, `\s\n\r\:\\`, `n\s`, `\\\\s`}
-	cdPlainVals     = []string{"", "x", "a b", "a;b", `a\b`, "cr\rlf\n", `; \` + "\r\n", `\\`, `\s`, "  ", ";;", "caf\xc3\xa9", "tab\t", "plain-value_1", `trail\`, "\x7f", "!", "~", "\x80"}
+	cdPlainVals     = []string{"\xef\xbf\xbd", "a \xef\xbf\xbd;b", "\xef\xbf\xbd\xff", "", "x", "a b", "a;b", `a\b`, "cr\rlf\n", `; \` + "\r\n", `\\`, `\s`, "  ", ";;", "caf\xc3\xa9", "tab\t", "plain-value_1", `trail\`, "\x7f", "!", "~", "\x80"}
 )
 
 func cdPickS(r *rand.Rand, xs []string) string { return xs[r.Intn(len(xs))] }
@@ -604,6 +600,8 @@ func init() {
 				"privmsg #c a\tb", "PRIVMSG #c a\xc2\xa0b", "PRIVMSG #c :a\vb", "005 n CHANLIMIT=#:120 :are supported",
 				"\r\n\r\nPING x\r\n\n", "\rX\n", "PI\rNG x", "\xc4\xb1d x", "caf\xc3\xa9 x", "\xff\xfe x",
 				"@time=2019-02-21T20:12:03.000Z PING x", "@time=bad PING x", "@time PING x",
+				"PRIVMSG #chan :caf\xef\xbf\xbd au lait", "FOO a \xef\xbf\xbd :c d", "@k=\xef\xbf\xbd :n\xef\xbf\xbd!\xef\xbf\xbd@h PRIVMSG #c :\xef\xbf\xbd",
+				"\xef\xbf\xbdCMD x", "PING \xef\xbf\xbd\xff", "PING :\xef\xbf\xbd\r\n",
 			} {
 				out = append(out, Case{l})
 			}
@@ -637,6 +635,14 @@ func init() {
 			src := &girc.Source{Name: "n", Ident: "u", Host: "h"}
 			return []Case{
 				mk(cdEvCase{cmd: "PING"}),
+				// a validly encoded U+FFFD (and its neighbours EF BF BC/BE/BF) is ordinary text
+				mk(cdEvCase{cmd: "PRIVMSG", params: []string{"#chan", "caf\xef\xbf\xbd au lait"}}),
+				mk(cdEvCase{cmd: "PRIVMSG", params: []string{"#chan", "\xef\xbf\xbd"}}),
+				mk(cdEvCase{cmd: "FOO", params: []string{"a", "\xef\xbf\xbd", "c d"}}),
+				mk(cdEvCase{cmd: "FOO", params: []string{"\xef\xbf\xbe", "\xef\xbf\xbf", "x\xef\xbf\xbc"}}),
+				mk(cdEvCase{cmd: "PRIVMSG", params: []string{"#c", "x"}, src: &girc.Source{Name: "n\xef\xbf\xbd", Ident: "\xef\xbf\xbd", Host: "h\xef\xbf\xbd"},
+					tagsNonNil: true, tags: [][2]string{{"k", "\xef\xbf\xbd"}, {"j", "a\xef\xbf\xbdb"}}}),
+				mk(cdEvCase{cmd: "PRIVMSG", params: []string{"#c", "\xef\xbf\xbd\xff\xef\xbf\r\n\xef\xbf\xbd"}}),
 				mk(cdEvCase{cmd: "X"}),
 				mk(cdEvCase{cmd: "PING", tagsNonNil: true}),
 				mk(cdEvCase{cmd: "PRIVMSG", params: []string{"#c", "a\tb"}}),
